@@ -127,6 +127,16 @@ def items(tier):
                "workplaces": [{"name": "WP0", "cap": cap, "targets": [0, 1], "facilities": [{"name": "F0", "skills": dict(full)}, {"name": "F1", "skills": dict(full)}]}],
                "teams": [{"name": "TM0", "targets": [0, 1], "workers": [{"name": "W%d" % i, "skills": dict(full), "fskills": {"F0": 1.0, "F1": 1.0}} for i in range(2)]}]}
         out.append((big, {"rule": "TSLACK", "max_time": 14}))
+    # a caller-chosen error_tol: capacity is capacity whatever tolerance the run is given (three parts of 0.335 in a unit room overshoot it by 0.005)
+    for sizes, cap in (((0.335, 0.335, 0.335), 1.0), ((0.5, 0.5, 0.004), 1.0), ((1.0, 1.0, 0.05), 2.0)):
+        names = ["T0", "T1", "T2"]
+        full = {nm: 1.0 for nm in names}
+        tri = {"tasks": [{"name": nm, "work": 3.0, "nf": True} for nm in names], "links": [],
+               "components": [{"name": "C%d" % i, "tasks": [i], "space": sizes[i]} for i in range(3)],
+               "workplaces": [{"name": "WP0", "cap": cap, "targets": [0, 1, 2], "facilities": [{"name": "F%d" % i, "skills": dict(full)} for i in range(3)]}],
+               "teams": [{"name": "TM0", "targets": [0, 1, 2], "workers": [{"name": "W%d" % i, "skills": dict(full), "fskills": {"F0": 1.0, "F1": 1.0, "F2": 1.0}} for i in range(3)]}]}
+        for tol in (None, 0.01, 0.1, 1e-6):
+            out.append((tri, {"rule": "TSLACK", "max_time": 16, "error_tol": tol}))
     for sp in list(F.fac_specs(tier)) + competing_specs(tier) + F.same_name_workplace_specs() + F.waiting_assembly_specs() + F.ff_held_component_specs() + F.late_placement_specs() + F.sequential_facility_specs() + F.auto_cure_specs():
         out.append((sp, {"rule": "TSLACK", "max_time": F.seq_bound(sp) + 8}))
     return out
@@ -143,6 +153,7 @@ def restart_items(tier):
     for sp, o in [it for it in items(tier) if any(wp.get("inputs") for wp in it[0].get("workplaces", []))][:: (3 if tier == "quick" else 1)]:
         for nb in (1, 2):
             out.append((sp, dict(o, presim_back=nb)))
+        out.append((sp, dict(o, presim_back=1, presim_back_rev=False)))  # the earlier backward run left its logs unreversed
     # stopped at step k, written to JSON, read into a new project and continued there (placement state has to survive the round trip)
     for sp, o in items(tier)[:: (4 if tier == "quick" else 2)]:
         for k in (1, 2, 3):
